@@ -123,3 +123,10 @@ def native_replay(rep):
     if bad is None:
         return {"confirmed": False, "observed": f"no deviation from the reference value map among {n} operation sequences (depth 3)"}
     return {"confirmed": True, "observed": bad, "found_by": f"bounded operation-sequence enumeration ({n} cases)"}
+
+
+# ---------------------------------------------------------------- the configuration hash is a function of the stored values only
+# "changing expression never changes the hash": get_hash reads nothing but the gene table (a read frame), and the expression operations
+# above leave the gene table alone (their `values-and-log-untouched` clauses)
+contract(T + ".get_hash", "C20", reads=["self._genes"], raises=["Exception"],     # json.dumps(default=str) of arbitrary user values may raise
+         ensures={})
